@@ -20,7 +20,7 @@ T = {
          "Lower bound of the real constructor compared with an explicit-state packing search and with the area bound for all instances within the bounds.",
          "Bounded bin/item sizes; the search is complete for integer placements."),
  "C04": ("fault_enumeration",
-         "all feasible packings plus every single- and double-field corruption, validated by the real validate()/from_str() against an independent feasibility predicate",
+         "all feasible packings plus every single- and double-field corruption, validated by the real validate()/from_str()/Packing.from_log() against an independent feasibility predicate",
          "Deviation-bounded (0,1,2 corrupted fields) enumeration around every feasible packing of the small instances; full matrix space for 1-item cases.",
          "Corruption values from a finite alphabet around the legal ranges."),
  "C05": ("exploration",
@@ -28,7 +28,7 @@ T = {
          "All matrices over the alphabet for n<=3 (and 0/1/B matrices for n=4), all permutations, all permutation dtypes.",
          "Finite value alphabet chosen at integer-type boundaries."),
  "C06": ("model_checking",
-         "stateless exploration of the real solve() loops under every scripted answer of the random source to a depth bound, plus kernel state-graph closure (fixpoint for the EA)",
+         "stateless exploration of the real solve() loops under every scripted answer of the random source to a depth bound (also on a process seeded with a best tour, with the table-logging FEA variant and with 2^27-entry tables), long runs under cyclic scripts to an iteration horizon, plus kernel state-graph closure (fixpoint for the EA)",
          "Every behaviour of the two algorithms for all start tours and all draw scripts up to the depth bound; EA reachable (tour,length) graph explored to fixpoint through the real move kernel.",
          "Small symmetric instances; FEA depth-bounded."),
  "C07": ("model_checking",
@@ -48,7 +48,7 @@ T = {
          "All programs of the alphabet and all fault sequences (0..5 faults, phase-specific) run to completion under a step horizon.",
          "Real-valued inputs restricted to a grid; tolerances fixed for the analytic comparison."),
  "C11": ("model_checking",
-         "explicit-state exploration of all operation histories (evaluate/initialize/set_model/set_raw/get_differentials) on one objective object to a depth bound, replay on fresh objects as reference",
+         "explicit-state exploration of all operation histories (evaluate/initialize/set_model/set_raw/get_differentials) on one objective object to a depth bound, replay on fresh objects as reference; the same for (real evaluate, begin, end, model evaluate) histories of the model-training objective; the real SurrogateOptimizer run over a finite configuration alphabet",
          "All histories up to the depth bound on real objects, values compared with fresh objects and collected data with a list model.",
          "Small rebuilt systems; finite parameter-vector alphabet."),
  "C12": ("exploration",
@@ -56,7 +56,7 @@ T = {
          "Every combination of the finite configuration alphabet is executed twice.",
          "Seeds and budgets are finite alphabets, not all seeds."),
  "C13": ("exploration",
-         "re-run of the kernel drivers under numba bounds checking in a child process with a fresh cache, plus guard-zone buffers, on an extreme-index alphabet",
+         "re-run of the kernel drivers and of the other checks' exhaustive quick alphabets under numba bounds checking in child processes with a fresh cache, plus guard-zone buffers, on an extreme-index alphabet (all index pairs of the TSP move kernels, model-objective histories)",
          "All kernels on their exhaustive quick alphabets plus extreme inputs with NUMBA_BOUNDSCHECK=1; IndexError or guard damage is a violation.",
          "numba does not flag slices or wrap-around negative indices."),
  "C14": ("model_checking",
